@@ -38,7 +38,7 @@ def apply_patch(repo, patch):
 def confirm(d):
     d = os.path.abspath(d)
     meta = json.load(open(os.path.join(d, "meta.json")))
-    wt = "/tmp/confirm_" + os.path.basename(os.path.dirname(d.rstrip("/"))) + "_" + os.path.basename(d.rstrip("/"))
+    wt = "/tmp/confirm_" + "_".join(d.rstrip("/").split("/")[-3:])
     sh(["git", "worktree", "remove", "--force", wt], cwd="/repo")
     rc, out = sh(["git", "worktree", "add", "--detach", wt, "HEAD"], cwd="/repo")
     if rc != 0:
@@ -49,7 +49,9 @@ def confirm(d):
         txt, files = demo_info(d)
         # where does the demo go? first path-looking token ending in _test.go
         dest = None
-        for tok in txt.replace("`", " ").split():
+        toks = [t.strip("`'\",;()") for t in txt.split()]
+        toks = [t for t in toks if t.endswith("_test.go")]
+        for tok in sorted(toks, key=lambda t: "/" not in t):
             if tok.endswith("_test.go"):
                 dest = tok
                 break
@@ -65,14 +67,14 @@ def confirm(d):
             src = os.path.join(d, files[0])
         shutil.copy(src, os.path.join(wt, dest))
         runname = "TestSeeded"
-        rc0, out0 = sh(["go1.26", "test", "-count=1", "-run", runname, pkg], cwd=wt)
+        rc0, out0 = sh([NETNS, "go1.26", "test", "-count=1", "-run", runname, pkg], cwd=wt)
         res["demo_passes_without_change"] = rc0 == 0
         rcp, outp = apply_patch(wt, os.path.join(d, "patch.diff"))
         res["patch_applies"] = rcp == 0
         if rcp != 0:
             print(outp[-1500:])
         else:
-            rc1, out1 = sh(["go1.26", "test", "-count=1", "-run", runname, pkg], cwd=wt)
+            rc1, out1 = sh([NETNS, "go1.26", "test", "-count=1", "-run", runname, pkg], cwd=wt)
             res["demo_fails_with_change"] = rc1 != 0
             res["demo_output_tail"] = out1[-600:]
             os.remove(os.path.join(wt, dest))
